@@ -141,6 +141,7 @@ func (r *reader) ConsumeByKey(key []byte, keyHash []byte, offset, maxCount int64
 	}
 
 	positions, err := ix.Keys(keyHash)
+	verifhook.Pause("reader.consumebykey.keys-read")
 	switch err {
 	case nil:
 		break
@@ -195,6 +196,7 @@ func (r *reader) Get(offset int64) (message.Message, error) {
 	}
 
 	position, err := index.Get(offset)
+	verifhook.Pause("reader.get.index-read")
 	if err != nil {
 		return message.Invalid, err
 	}
@@ -215,6 +217,7 @@ func (r *reader) GetByKey(key []byte, keyHash []byte, tctx int64) (message.Messa
 	}
 
 	positions, err := ix.Keys(keyHash)
+	verifhook.Pause("reader.getbykey.keys-read")
 	if err != nil {
 		return message.Invalid, err
 	}
@@ -248,6 +251,7 @@ func (r *reader) GetByTime(ts int64, tctx int64, later bool) (message.Message, e
 	}
 
 	position, err := index.Time(ts)
+	verifhook.Pause("reader.getbytime.index-read")
 	if err != nil {
 		return message.Invalid, err
 	}
